@@ -156,6 +156,13 @@ fn c12_o2_full_bucket_stale_head_only() {
     std::mem::forget(b);
 }
 
+/// table with the given id whose bucket 160 holds `ns` (callers pass ids at distance 160)
+pub(crate) fn table_with(id: Id, ns: Vec<Node>) -> RoutingTable {
+    let mut rt = RoutingTable::new(id);
+    rt.buckets.insert(160, KBucket { nodes: ns });
+    rt
+}
+
 fn direct_table(ns: Vec<Node>) -> RoutingTable {
     let mut rt = RoutingTable::new(Id::from([0u8; 20]));
     rt.buckets.insert(160, KBucket { nodes: ns });
